@@ -1,2 +1,3 @@
 import GraphSlam.Props.C05.Stationary
+import GraphSlam.Props.Tie.GraphPy
 /-! C05 — umbrella. -/
